@@ -814,7 +814,9 @@ def Commandable(
             super(_Commando, self).__init__(**kwargs)
 
             # build a default value in case one is needed
-            default_value = datatype().value
+            default_value = datatype()
+            if isinstance(default_value, Atomic):
+                default_value = default_value.value
             if issubclass(datatype, Enumerated):
                 default_value = datatype._xlate_table[default_value]
             if _debug:
